@@ -289,7 +289,7 @@ pub fn run(ctx: &Ctx, rep: &Report) -> Meta {
                positive: sign / sign_multiattr verify, disclose_selectively for ALL 2^n hidden sets verifies, byte and JSON round trips, e prime (own Miller-Rabin + GMP) of exactly le bits coprime to (p-1)(q-1), s of exactly ls bits; \
                negative (attacker programs need no secret key): every attribute +-1 / bit flip / random, swaps, dropped attribute, shift by k*e with v*a_i^k for k in {1, 2, -1, -2} (oversized and negative attributes), \
                single-field edits of e, s, v (+-1, bit flip, 0, 1), field swaps, trivial-exponent forgery e = 1, other bases, rotated bases, other key; oracle: verify is false; \
-               non-trivial = n >= 2 or a negative family executed; evaluations = verifications"
+               attribute-count sweep n = 6..=24 (quick) / 6..=70 (thorough); byte round trip of constructed signatures with tiny / maximal / leading-zero components; non-trivial = n >= 2 or a negative family executed; evaluations = verifications"
             .into(),
         assumptions: vec![
             "correlated re-randomisations (s + k*e, v*b^k) are not 'another attribute vector' and are not generated".into(),
